@@ -94,7 +94,7 @@ Lemma upsert1_insert_keeps st id p pd st' pd' :
   st_sch st' = st_sch st /\ single (st_docs st') /\ uniq_okb st' = true.
 Proof.
   intros S U H. unfold upsert1 in H.
-  destruct (gen_row (s_fields (st_sch st)) p) as [r| |]; simpl in H; try discriminate.
+  destruct (gen_row _ (s_fields (st_sch st)) p) as [r| |]; simpl in H; try discriminate.
   destruct (find_doc (st_docs st) id) as [d0|] eqn:F; simpl in H; try discriminate.
   destruct (uniq_checks st true id r pd) as [pd1|] eqn:UC; try discriminate.
   inversion H; subst; clear H. simpl.
@@ -112,11 +112,16 @@ Proof.
     apply in_lives in Ha as (d & Hd & Cd).
     unfold row_tuple. simpl. fold t.
     assert (HN : holds_now (st_sch st) (ix_cols ix) t d = false).
-    { destruct (first_entry (st_sch st) (ix_cols ix) t (st_docs st) None) as [d1|] eqn:FE.
-      - apply first_entry_spec in FE as [FE|[FE1 FE2]]; [discriminate|].
-        rewrite (single_ever_holds _ _ _ d1 (S d1 FE1)) in FE2. rewrite FE2 in C1. discriminate.
-      - apply first_entry_spec in FE as [_ FE].
-        rewrite <- (single_ever_holds _ _ _ d (S d Hd)). auto. }
+    { destruct (s_uf (st_sch st)).
+      - destruct (first_entry (st_sch st) (ix_cols ix) t (st_docs st) None) as [d1|] eqn:FE.
+        + apply first_entry_spec in FE as [FE|[FE1 FE2]]; [discriminate|].
+          rewrite (single_ever_holds _ _ _ d1 (S d1 FE1)) in FE2. rewrite FE2 in C1. discriminate.
+        + apply first_entry_spec in FE as [_ FE].
+          rewrite <- (single_ever_holds _ _ _ d (S d Hd)). auto.
+      - apply negb_true_iff in C1.
+        destruct (holds_now (st_sch st) (ix_cols ix) t d) eqn:HH; auto.
+        assert (existsb (holds_now (st_sch st) (ix_cols ix) t) (st_docs st) = true)
+          by (apply existsb_exists; eauto). congruence. }
     unfold holds_now in HN. rewrite Cd in HN. rewrite HN. reflexivity.
 Qed.
 
